@@ -22,7 +22,9 @@ RULE = ('Hypothesis rule-based state machines: initialisation draws the AMHL see
         'attempt succeeds (decrypted signature unlocks hop i through run_auth_scripts) <=> its scalar is S_i. '
         'non-trivial = n >= 3 and >= 1 failing attempt, or refund keys present; distinct by (n, refund pattern, attempt sequence).')
 ASSUMPTIONS = ['AMHL.sample derivation as documented: clamp(sha256(seed || i as 8 bytes big endian))',
-               'vt/ed25519_ref.py for scalar / point arithmetic']
+               'vt/ed25519_ref.py for scalar / point arithmetic',
+               'the parties of a chain have distinct public keys (setup_amhl returns a dict keyed by public key: a repeated key '
+               'overwrites the earlier hop) - "key sets"']
 
 sha = lambda b: hashlib.sha256(b).digest()  # noqa: E731
 
@@ -47,13 +49,20 @@ class Interp:
         refund = {self.pks[i]: E.pub(seed_of(tag, 100 + i)) for i in range(n) if (init['refund_mask'] >> i) & 1}
         self.refund = refund
         env.pin_clock(1_700_000_000)
+        env.pin_random(b'c18' + tag)           # an empty AMHL seed means random samples: keep the run a function of the case
         try:
             self.amhl = T.setup_amhl(init['amhl_seed'], list(self.pks), fl, refund or None)
             self.other = T.setup_amhl(init['amhl_seed'] + b'other', list(self.pks), fl)
         finally:
             env.unpin_clock()
+            env.unpin_random()
         # model
-        self.y = [E.scalar_int(E.clamp(sha(init['amhl_seed'] + i.to_bytes(8, 'big')))) % L for i in range(n)]
+        if init['amhl_seed']:
+            self.y = [E.scalar_int(E.clamp(sha(init['amhl_seed'] + i.to_bytes(8, 'big')))) % L for i in range(n)]
+        else:
+            # no seed: the samples are random; the model takes the per-hop secrets the setup hands out and everything else
+            # (tweak points, final key, locks, cascade) must be consistent with them
+            self.y = [E.scalar_int(self.amhl[self.pks[i]][3]) % L for i in range(n)]
         self.S = []
         acc = 0
         for v in self.y:
@@ -181,7 +190,7 @@ def check_case(case):
     if case.get('check') != 'history':
         raise ValueError('check')
     init = case['init']
-    if not 2 <= init['n'] <= 8 or not init['amhl_seed']:
+    if not 2 <= init['n'] <= 8:
         raise ValueError('domain')
     it = Interp(init)
     for s in case['steps']:
@@ -199,7 +208,7 @@ def make_machine(ctx):
             self.steps = []
             self.dead = False
 
-        @initialize(tag=st.binary(min_size=1, max_size=2), n=st.integers(2, 8), amhl_seed=st.binary(min_size=1, max_size=16),
+        @initialize(tag=st.binary(min_size=1, max_size=2), n=st.integers(2, 8), amhl_seed=st.one_of(st.just(b''), st.binary(min_size=1, max_size=16), st.binary(min_size=1, max_size=16), st.binary(min_size=1, max_size=16)),
                     flag=st.sampled_from([0, 0, 0, 1]), refund_mask=st.sampled_from([0, 0, 0xff, 0x05, 0x02]))
         def setup(self, tag, n, amhl_seed, flag, refund_mask):
             self.init = {'tag': tag, 'n': n, 'amhl_seed': amhl_seed, 'flag': flag, 'refund_mask': refund_mask}
